@@ -413,7 +413,7 @@ BATCH_VARS = ['sequence-item', 'sequence-index', 'sequence-number', 'sequence-st
 
 def gen_inx(g, depth):
     """dtml-in with sort / reverse / batch options (the model's `inx_`): sorted loops only over sequences whose sort keys
-    are comparable (ints, callables returning ints, at most one None)"""
+    are comparable (ints, callables returning ints, None)"""
     r = g.r
     x = {}
     c = r.random()
@@ -582,9 +582,10 @@ def gen_case(r, depth=3, robust=False):
     ns['seq'] = {'l': [g.item_val() for _ in range(r.randint(0, 4))]}
     ns['seq2'] = {'l': [g.v_obj({'p': g.simple_val(), 'k': r.choice([1, 1, 2])}) for _ in range(r.randint(0, 3))]}
     ns['m1'] = {'d': [[n, g.simple_val()] for n in ['p', 'x', 'zz']]}
-    # sequences with comparable sort keys `k` (ints, callables returning ints, at most one None / missing)
+    # sequences with comparable sort keys `k` (ints, callables returning ints, None)
     def keyval(i, none_at):
-        if i == none_at:
+        # None / missing keys sort first (several of them: CPython lists them in the reverse of their original order)
+        if i == none_at or r.random() < 0.12:
             return None
         if r.random() < 0.2:
             return g.v_fn(r.choice([0, 1, 2, 3]))
